@@ -226,6 +226,7 @@ class Analysis:
         for op, a, b in assume:
             self.init += cons(op, a, b)
         self.visits = {}
+        self.vtype = {}           # variable term -> C type it was read or written with (type-based alias refinement)
         self.deadline = None
         self.defs = {}            # quotient variable -> its defining constraints (k*q <= a <= k*q + k - 1)
         self.heads = self._loop_heads()
@@ -365,6 +366,7 @@ class Analysis:
                 return None
             if self._is_unsigned(e.ty):
                 self.unsigned.add(n)
+            self.vtype.setdefault(n, (t.get("canon") or e.ty))
             return Lin.var(n)
         if c == "UnaryOperator" and e.op == "&":
             k = e.kid(0).strip() if e.kid(0) is not None else None
@@ -377,6 +379,10 @@ class Analysis:
         if c == "UnaryOperator" and e.op == "-":
             inner = self.lin(e.kid(0), st)
             return -inner if inner is not None and not self._is_unsigned(e.ty) else None
+        if c == "BinaryOperator" and e.op == "=":
+            # the value of an assignment expression is the value its target has afterwards (the inner assignment is an
+            # earlier element, so the state already reflects it)
+            return self.lin(e.kid(0), st)
         if c == "BinaryOperator":
             a, b = self.lin(e.kid(0), st), self.lin(e.kid(1), st)
             if e.op == "+" and a is not None and b is not None:
@@ -426,10 +432,14 @@ class Analysis:
             cs = project(cs + self._bounds([v]), v)
         return cs
 
-    def kill_term(self, cs, t):
-        """An lvalue was overwritten: forget it, everything computed through it, and what may alias it."""
+    def kill_term(self, cs, t, ty=None):
+        """An lvalue was overwritten: forget it, everything computed through it, and what may alias it (a store through a
+        pointer or into an array element may hit any other such object of the same type, or any object when the type is a
+        character type)."""
         fld = t[2] if isinstance(t, tuple) and t and t[0] == "." else None
         indirect = isinstance(t, tuple) and t and t[0] in ("*", "[]")
+        tcan = (self._ty(ty).get("canon") or ty) if ty else None
+        chars = ("char", "unsigned char", "signed char")
 
         def pred(v):
             if not isinstance(v, tuple):
@@ -441,6 +451,9 @@ class Analysis:
             if fld is not None and v[0] == "." and v[2] == fld:
                 return True
             if indirect and v and v[0] in ("*", "[]"):
+                vt = self.vtype.get(v)
+                if tcan is not None and vt is not None and vt != tcan and tcan not in chars and vt not in chars:
+                    return False
                 return True
             return False
         return self._kill(cs, pred)
@@ -529,7 +542,7 @@ class Analysis:
                 # terms computed through t (e.g. *t) are stale
                 out = self._kill(out, lambda v: isinstance(v, tuple) and v != t and any(s == t for s in subterms(v)))
                 return frozenset(out)
-            return frozenset(self.kill_term(cs, t))
+            return frozenset(self.kill_term(cs, t, tgt.ty))
         if e.op == "/=" and tl is not None and self._is_unsigned(tgt.ty):
             r = self.lin(e.kid(1), st)
             if r is not None and r.is_const() and r.k.denominator == 1 and r.k >= 1:
@@ -550,7 +563,7 @@ class Analysis:
             return frozenset(self.kill_term(cs, t))
         if e.op == "=":
             r = self.lin(e.kid(1), st)
-            cs = self.kill_term(cs, t)
+            cs = self.kill_term(cs, t, tgt.ty)
             if r is not None and t not in r.vars() and (self._is_int(tgt.ty) or self._ty(tgt.ty).get("kind") == "ptr"):
                 # a narrowing store does not preserve the value
                 src = e.kid(1)
